@@ -125,6 +125,8 @@ def gen_cases(rng, n):
         style = rng.choice(["add_sub_spec", "one_text"])
         declare_names = rng.random() < 0.5
         o1 = dt_obj(phi_m, S, vs, consts=cdecl)
+        if cdecl and rng.random() < 0.5:
+            o1["late_consts"] = [[c_[0], "977"] for c_ in cdecl]
         if bconsts:
             o1["written"] = as_written(phi)
             o1["units"] = {"def": "s", "pnum": 1, "pden": 1, "punit": "s"}
